@@ -303,11 +303,11 @@ class IMUPreintegrator(nn.Module):
             cov = {'cov': None}
 
         if not self.reset:
-            self.pos = predict['pos'][..., -1:, :]
-            self.rot = predict['rot'][..., -1:, :]
-            self.vel = predict['vel'][..., -1:, :]
-            self.cov = cov['cov']
-            self.Rij = Rij[..., -1:, :]
+            self.pos = predict['pos'][..., -1:, :].clone()
+            self.rot = predict['rot'][..., -1:, :].clone()
+            self.vel = predict['vel'][..., -1:, :].clone()
+            self.cov = cov['cov'].clone() if cov['cov'] is not None else None
+            self.Rij = Rij[..., -1:, :].clone()
 
         return {**predict, **cov}
 
